@@ -1,4 +1,5 @@
 import NimaVerif.Lemmas.Trivia
+import NimaVerif.Lemmas.FragParse
 /-!
 # C03 — comments survive exactly once, in order, in place (trivia algebra)
 
@@ -205,5 +206,138 @@ def sampleTrivia : List Trivia :=
 
 example : commentTokens 2 sampleTrivia = ["# c".toList, "/* a\n     b */".toList] := by decide
 example : formatInterstitialTrivia sampleTrivia 2 = "\n\n# c\n  /* a\n     b */\n".toList := by decide
+
+section Fragment
+open Nima.Frag
+
+/-! ## Container fragment (L3–L5): comments through the whole round trip
+
+Same models as `Props/C01.lean` (section Fragment). `lexOf` reads the code tokens AND the comment
+tokens off the output pieces, in order; `Items.lex` reads them off the input tree. -/
+
+/-- the delimiters of a binding, which the property lets a comment cross -/
+def isBindDelim : Lex → Bool
+  | .tok s => s == ['='] || s == [';']
+  | .cmt _ => false
+
+/-- comment normalisation: a comment token is compared as `Comment.from_cst` / `rebuild` rewrite it
+    (`line_comment_roundtrip`, `block_comment_idem` above say what that changes: `# ` → `#`,
+    delimiter padding of block comments) -/
+def normLex : Lex → Lex
+  | .tok s => .tok s
+  | .cmt t => normCmt t
+
+def keep (l : Lex) : Bool := !isBindDelim l
+
+theorem filter_keep_ncm (cs : GC) : (ncm cs).filter keep = ncm cs := by
+  induction cs with
+  | nil => rfl
+  | cons p cs ih =>
+    show List.filter keep (normCmt p.2 :: ncm cs) = normCmt p.2 :: ncm cs
+    rw [List.filter_cons_of_pos (by simp [keep, normCmt, isBindDelim]), ih]
+
+theorem map_normLex_lexGC (cs : GC) : (lexGC cs).map normLex = ncm cs := by
+  induction cs with
+  | nil => rfl
+  | cons p cs ih => simp [lexGC, ncm, normLex] at ih ⊢
+
+mutual
+theorem cst_lexM_modulo : (c : Cst) → c.lexM.filter keep = (c.lex.map normLex).filter keep
+  | .leaf _ _ => rfl
+  | .list its _ => by
+    have := items_lexM_modulo its
+    simp only [Cst.lexM, Cst.lex, List.map_cons, List.map_append, List.filter_cons, List.filter_append, this]
+    simp [normLex]
+    rfl
+  | .set r _ its _ => by
+    have := items_lexM_modulo its
+    cases r <;>
+    simp only [Cst.lexM, Cst.lex, recLex, List.map_cons, List.map_append, List.filter_cons, List.filter_append, this] <;>
+    simp [normLex] <;> rfl
+theorem items_lexM_modulo : (its : Items) → its.lexM.filter keep = (its.lex.map normLex).filter keep
+  | .nil => rfl
+  | .cmt _ t rest => by
+    have := items_lexM_modulo rest
+    simp only [Items.lexM, Items.lex, List.map_cons, List.filter_cons, this]
+    simp [normLex]
+    rfl
+  | .elem _ c rest => by
+    simp only [Items.lexM, Items.lex, List.map_append, List.filter_append, cst_lexM_modulo c, items_lexM_modulo rest]
+  | .bind _ n c1 _ c2 _ v c3 _ rest => by
+    have h1 := cst_lexM_modulo v
+    have h2 := items_lexM_modulo rest
+    simp only [Items.lexM, Items.lex, List.map_cons, List.map_append, List.filter_cons, List.filter_append, h1, h2,
+      map_normLex_lexGC, filter_keep_ncm]
+    simp [normLex, keep, isBindDelim]
+end
+
+/-- COMMENTS SURVIVE EXACTLY ONCE, IN ORDER, IN PLACE. For every well-formed file of the fragment
+    in which no comment overtakes another (`File.orderOk`, see `cex_comment_overtakes`), the
+    sequence of code tokens and comment tokens of the output — `lexOf` of the pieces — is the
+    sequence of the input with every comment normalised, except that the comments of a binding
+    written in front of `=` come out after it and those in front of `;` after it (`Items.lexM`). -/
+theorem frag_comments_preserved (f : File) (s : Src) (hwf : f.wf = true) (_hws : f.noLeadingWs = true)
+    (hord : f.orderOk = true) (hp : f.parse = .ok s) : lexOf s.rebuildP = f.items.lexM := by
+  obtain ⟨s', hp', hok, hl⟩ := file_parse_spec true f hwf (fun _ => hord)
+  rw [hp] at hp'; injection hp' with hs; subst hs
+  rw [(srcRebuildP_lex s hok).1]; exact hl
+
+/-- The same in the property's own terms: with `=` and `;` left out (the property allows a
+    comment to cross them) the interleaved sequence of tokens and comments is preserved, up to
+    comment normalisation. No comment crosses any other token, none is lost or duplicated. -/
+theorem frag_comments_in_place (f : File) (s : Src) (hwf : f.wf = true) (hws : f.noLeadingWs = true)
+    (hord : f.orderOk = true) (hp : f.parse = .ok s) :
+    (lexOf s.rebuildP).filter keep = (f.items.lex.map normLex).filter keep := by
+  rw [frag_comments_preserved f s hwf hws hord hp]; exact items_lexM_modulo f.items
+
+/-- what normalisation does to a line comment: nothing, except that `# ` loses its trailing space -/
+theorem frag_line_comment_norm (r : Text) (hnl : containsNL r = false) :
+    normLex (.cmt ('#' :: r)) = .cmt (if r = [' '] then ['#'] else '#' :: r) := by
+  show Lex.cmt ((mkComment ('#' :: r) false).token 0) = _
+  have hk := (line_comment_kind 0 r).1
+  have : (mkComment ('#' :: r) false).token 0 = (Comment.fromText 0 ('#' :: r)).str := by
+    unfold mkComment Comment.token
+    simp only [hk]
+    rfl
+  rw [this, line_comment_str 0 r hnl]
+
+/-- full statement (false): without the side condition on comment order -/
+def frag_comments_preserved_full : Prop :=
+  ∀ (f : File) (s : Src), f.wf = true → f.noLeadingWs = true → f.parse = .ok s →
+    (lexOf s.rebuildP).filter keep = (f.items.lex.map normLex).filter keep
+
+/-- `[ x⏎ /* b */ /* c */ y ]`: in a list (and at top level) a comment that starts on the row on
+    which the previous comment ends is attached to the previous ELEMENT as an end-of-line comment,
+    although own-line comments are still pending: it overtakes them (`parse_delimited_sequence`:
+    `can_inline_comment` of `process_list` / `NixSourceCode.from_cst` does not look at what `prev`
+    is). Output: `[⏎  x /* c */⏎  /* b */⏎  y⏎]`. -/
+def overtakeFile : File :=
+  { items := .elem [] (.list (.elem " ".toList (.leaf .ident "x".toList)
+      (.cmt "\n ".toList "/* b */".toList (.cmt " ".toList "/* c */".toList
+        (.elem " ".toList (.leaf .ident "y".toList) .nil)))) " ".toList) .nil,
+    endGap := [] }
+
+theorem cex_comment_overtakes : ¬ frag_comments_preserved_full := by
+  intro h
+  have := h overtakeFile _ (by decide) (by decide) rfl
+  revert this; decide
+
+example : overtakeFile.flatten = "[ x\n /* b */ /* c */ y ]".toList := by decide
+example : overtakeFile.roundtrip = .ok "[\n  x /* c */\n  /* b */\n  y\n]".toList := by decide
+example : overtakeFile.orderOk = false := by decide
+
+/-- a file with comments in every kind of gap of a binding; no comment overtakes another -/
+def fragSample : File :=
+  { items := .cmt [] "# h".toList (.elem "\n".toList
+      (.set false [] (.bind " ".toList "a".toList [(" ".toList, "/* n */".toList)] " ".toList
+          [(" ".toList, "/* e */".toList)] " ".toList (.leaf .int "1".toList) [(" ".toList, "/* v */".toList)] []
+        (.cmt " ".toList "# e".toList .nil)) "\n".toList) .nil),
+    endGap := "\n".toList }
+
+example : fragSample.flatten = "# h\n{ a /* n */ = /* e */ 1 /* v */; # e\n}\n".toList := by decide
+example : fragSample.wf = true ∧ fragSample.noLeadingWs = true ∧ fragSample.orderOk = true := by decide
+example : fragSample.roundtrip = .ok "# h\n{\n  a =\n    /* n */\n    /* e */\n    1; /* v */\n# e\n}\n".toList := by decide
+
+end Fragment
 
 end Nima.C03
